@@ -2009,9 +2009,10 @@ def gen_chain_case(rng, chk, pair=None):
         if rng.random() < 0.3:
             steps.append(rng.choice(names))
     steps = [chain_step(rng, s) for s in steps]
+    describe = rng.random() < 0.12
     if lone:
         spec = gen_bs_four_phases(rng) if rng.random() < 0.6 else gen_leaf(rng, 4, kinds=("BS", "PS", "PERM", "U"))
-        return {"steps": steps, "top": {"id": 1, "leaf": spec, "size": gens.leaf_width(spec)}}
+        return {"steps": steps, "describe": describe, "top": {"id": 1, "leaf": spec, "size": gens.leaf_width(spec)}}
     m = rng.randint(2, chk.pick(5, 7))
     if rng.random() < 0.05:
         m = rng.randint(WIDE_MIN, chk.pick(11, 14))
@@ -2023,7 +2024,7 @@ def gen_chain_case(rng, chk, pair=None):
         leaf = {"id": counter[0], "leaf": gen_bs_four_phases(rng), "size": 2}
         top["ops"].insert(rng.randrange(len(top["ops"]) + 1), {"off": rng.randint(0, m - 2), "node": leaf,
                                                                "how": rng.choice(["nest", "fd"])})
-    return {"steps": steps, "top": top}
+    return {"steps": steps, "describe": describe, "top": top}
 
 
 def chain_apply(obj, st, m):
@@ -2140,7 +2141,7 @@ def judge_chain_(chk, case, count=True):
             after = f" after [{history(i - 1)}]" if i > 1 else ""
             return ("violation", f"chain-{k}-matrix", f"{k}{after} on one object: the matrix is not "
                     f"{'the advertised transform of' if k.startswith('inv-') else 'that of'} the object it was applied to "
-                    f"(deviates by {float(np.max(np.abs(u_new - want))) if u_new.shape == want.shape else 'shape'})", rp)
+                    f"(deviates by {format(float(np.max(np.abs(u_new - want))), '.3g') if u_new.shape == want.shape else 'its shape'})", rp)
         # ---- the model's history
         if k.startswith("inv-") or k in CHAIN_TRANSPARENT:
             seg = seg + [["inv", "v" in k[4:], "h" in k[4:]] if k.startswith("inv-") else CHAIN_TRANSPARENT[k]]
@@ -2180,7 +2181,8 @@ def judge_chain_(chk, case, count=True):
             return ("violation", "chain-leaf-copy-matrix", f"history [{history(len(steps))}]: copy() of the resulting "
                     f"{type(leaf).__name__} has another matrix (by {float(np.max(np.abs(ul - uc))):.3g})", rp)
     lv = leaves_of(obj)
-    if lv and all(isinstance(x, (BS, PS, PERM, Barrier)) for x in lv):
+    # (describe() costs about 0.2 s per printed angle - sympy in simple_float: a marked tenth of the histories only)
+    if case.get("describe") and lv and len(lv) <= 8 and all(isinstance(x, (BS, PS, PERM, Barrier)) for x in lv):
         rebuilt = describe_rebuild(obj)
         if rebuilt is not None:
             try:
